@@ -36,7 +36,7 @@ ASSUMPTIONS = [
 MARK = "​"
 
 CLASH = ["items", "keys", "get", "update", "pop", "clone", "values", "as_dict"]
-ORD = ["a", "b", "c", "x1"]
+ORD = ["a", "b", "c", "x1", "self"]
 
 
 # ------------------------------------------------------------------------------------------------- values
